@@ -97,6 +97,16 @@ const DECL_LINES: &[&str] = &[
     "zl := []\nzl = [zl]\nzl = 1",
     "zt := (1, 2)\nzt = (zt, zt)",
     "zf :: fn a -> a(a) end",
+    // generic user types applied to too many, too few and repeated type arguments
+    "Zp :: blob(*A) { a: *A }\nzp1: Zp(int, int) = Zp { a: 1 }",
+    "Zp2 :: blob(*A, *B) { a: *A, b: *B }\nzp2: Zp2(int) = Zp2 { a: 1, b: 2 }",
+    "Zp3 :: enum(*T)\n    Some *T,\n    None,\nend\nzp3: Zp3(int, str, bool) = Zp3.None",
+    // names declared twice inside one declaration
+    "Zd :: enum\n    A,\n    A,\nend",
+    "Zd2 :: blob(*T, *T) { a: *T }",
+    "Zd5 :: enum\n    A,\n    B,\n    A,\n    A,\n    A,\n    A,\n    A,\n    A,\n    A,\n    A,\nend",
+    "Zd3 :: enum(*T, *T)\n    A *T,\nend",
+    "Zd4 :: blob { a: int, a: str }",
     // loop control inside closures inside loops
     "loop do\n    zcl :: fn do\n        continue\n    end\n    zcl()\n    break\nend",
     "loop true do\n    zbr := fn -> int do\n        break\n        ret 1\n    end\n    break\nend",
